@@ -104,6 +104,19 @@ def _masks(t):
             np.asarray(t.valid_peak_boolean_mask, dtype=bool).tolist())
 
 
+def _range_arg(obj, op):
+    """The range as the caller passes it: a fresh tuple, or - ``shared`` - ONE list that the caller keeps, edits
+    in place and passes again (the list lives on the object so that cloning a state keeps the caller's list and
+    the object's view of it together).  A list never compares equal to the stored tuple, so the peak search on
+    entry is always carried out for it: the simulation of that entry search must be given the same argument."""
+    if not op.get("shared"):
+        return tuple(op["rng"])
+    if not hasattr(obj, "_hvmc_callers_list"):
+        obj._hvmc_callers_list = [None, None]
+    obj._hvmc_callers_list[0], obj._hvmc_callers_list[1] = op["rng"]
+    return obj._hvmc_callers_list
+
+
 def _run_impl(obj, op):
     """Call the real function, capturing result/exception and DEBUG trace."""
     lg = logging.getLogger("hvsrpy.window_rejection")
@@ -114,10 +127,11 @@ def _run_impl(obj, op):
     old_prop = lg.propagate
     lg.propagate = False
     try:
+        rng_arg = _range_arg(obj, op)
         with np.errstate(all="ignore"):
             ret = hvsrpy.frequency_domain_window_rejection(
                 obj, n=op["n"], max_iterations=op["maxit"], distribution_fn=op["dfn"],
-                distribution_mc=op["dmc"], search_range_in_hz=tuple(op["rng"]),
+                distribution_mc=op["dmc"], search_range_in_hz=rng_arg,
                 find_peaks_kwargs=op.get("kw"))
         exc = None
     except Exception as e:      # noqa: BLE001
@@ -151,6 +165,13 @@ class System:
                 # same range and the same non-None kwargs as stored: the entry peak search takes the
                 # early return of update_peaks_bounded and rejections made BEFORE the call persist
                 ops.append(dict(op="F", n=n, maxit=maxit, dfn=dfn, dmc=dmc, rng=list(r), kw={}))
+        for r in [(None, None), (f[1], f[F - 2]), (None, f[F - 3]), (f[2], None)]:
+            ops.append(dict(op="F", n=root["ns"][0], maxit=max(root["maxits"]), dfn="lognormal", dmc="lognormal",
+                            rng=list(r), kw={}, shared=True))
+        # the registered alias spelling of the lognormal distribution, for either argument
+        for n, (dfn, dmc) in itertools.product(root["ns"], (("log-normal", "log-normal"), ("log-normal", "normal"),
+                                                           ("normal", "log-normal"))):
+            ops.append(dict(op="F", n=n, maxit=max(root["maxits"]), dfn=dfn, dmc=dmc, rng=list(ranges[0])))
         for a in range(len(self.csets)):
             for i in range(self.W):
                 ops.append(dict(op="M", az=a, i=i))
@@ -191,7 +212,9 @@ class System:
 
     def canon(self, o):
         ts = self._trads(o)
-        return tuple((tuple(_masks(t)[0]), tuple(_masks(t)[1]),
+        # (whether the caller still holds a list it passed as the range is part of the state: states that differ
+        #  in it must not be merged, an object that kept the caller's list has other futures)
+        return (hasattr(o, "_hvmc_callers_list"),) + tuple((tuple(_masks(t)[0]), tuple(_masks(t)[1]),
                       tuple(None if v is None else float(v) for v in t._search_range_in_hz),
                       tuple("nan" if math.isnan(v) else float(v) for v in t._main_peak_frq))
                      for t in ts)
@@ -210,7 +233,7 @@ class System:
         before = copy.deepcopy(o)
         # accept state right after the peak search performed on entry
         entry = copy.deepcopy(o)
-        entry.update_peaks_bounded(search_range_in_hz=rng, find_peaks_kwargs=op.get("kw"))
+        entry.update_peaks_bounded(search_range_in_hz=_range_arg(entry, op), find_peaks_kwargs=op.get("kw"))
         entry_masks = [_masks(t) for t in self._trads(entry)]
         detail = dict(op=op, masks_before=[_masks(t) for t in self._trads(before)])
         ret, exc, msgs = _run_impl(o, op)
@@ -234,6 +257,16 @@ class System:
                 refs.append(None)
                 break       # the implementation stops at the first azimuth that fails, too
         cls = "traditional" if root["kind"] == "trad" else "azimuthal"
+        # the peaks the decisions are made on are those of the range of THIS call
+        if exc is None:
+            for ai, (t, cs) in enumerate(zip(self._trads(o), self.csets)):
+                want = ["nan" if math.isnan(v) else v for v in _peaks(self.freq, cs, rng, op.get("kw"))]
+                got = ["nan" if math.isnan(v) else float(v) for v in t._main_peak_frq]
+                if want != got:
+                    ctx.violation(f"C06:{cls}:peaks-not-of-this-range", root,
+                                  detail=dict(detail, azimuth=ai), expected=want, observed=got,
+                                  explanation="after the call the per-window peaks are not those of the search "
+                                              "range given to it: the peak search on entry was not carried out")
 
         # -- claims that hold regardless of domain / knife-edge -------------
         # (when the call raised, later azimuths never had their entry peak search:
@@ -441,7 +474,9 @@ def describe(tier):
         rule="roots: curve sets (named shapes, 4-7 windows, F=7, linear and geometric grids) as HvsrTraditional "
              "and 2-azimuth HvsrAzimuthal; BFS depth 2 over {rejection calls for every (n, max_iterations, "
              "distribution_fn, distribution_mc, range) of the root's menu, manual rejection of each window, "
-             "range updates}; every rejection transition is compared with the reference loop (count, masks, "
+             "range updates, the alias spelling 'log-normal' for either distribution, and rejections driven through ONE "
+             "caller-owned range list edited in place between calls (whether the caller holds such a list is part of "
+             "the state)}; after every call the per-window peaks must be those of the range of that call; every rejection transition is compared with the reference loop (count, masks, "
              "per-iteration DEBUG trace) unless the reference leaves the algorithm's domain or meets a knife-edge "
              "threshold; non-trivial/distinct = (kind, grid, shapes)",
         bounds=dict(depth=2, n="3 (quick) / 5 (thorough) values", max_iterations="{1,2,50} / {1,2,3,50}"),
